@@ -26,6 +26,7 @@ var PerturbShare = 0
 
 var (
 	perturbSleepers atomic.Int64
+	perturbForeign  atomic.Int64 // sleepers stranded in abandoned bubbles
 	perturbMu       sync.Mutex
 	perturbCases    int
 	perturbSleeps   int64
@@ -168,9 +169,23 @@ func RunBubble(t *testing.T, caseID string, watchdog time.Duration, f func()) Ca
 // Wait lets virtual time pass until no such sleeper is left (bounded, in case a sleeper belongs to an
 // abandoned bubble whose clock no longer moves).
 func Wait() {
-	for i := 0; i < 100000; i++ {
+	same, last := 0, int64(-1)
+	for {
 		synctest.Wait()
-		if perturbSleepers.Load() == 0 {
+		n := perturbSleepers.Load() - perturbForeign.Load()
+		if n <= 0 {
+			return
+		}
+		// A sleeper of an abandoned bubble (its clock is frozen by a goroutine waiting for a mutex) never wakes up:
+		// when the count has not moved although this bubble's clock has gone far past the longest sleep, the
+		// remaining sleepers are not ours and are discounted from now on.
+		if n == last {
+			same++
+		} else {
+			same, last = 0, n
+		}
+		if same >= 40 {
+			perturbForeign.Add(n)
 			return
 		}
 		time.Sleep(60 * time.Microsecond)
